@@ -99,6 +99,12 @@ CHECKS = {
         "Trusted: RealProcessor harness (vf/realize.py), reference evaluator, SQLite.",
         "DESIGN.md 3 C07",
     ),
+    "C03": (
+        "explicit-state BFS over multi-engine base trees x every operation x every preferred-engine flag combination; real Processor evaluation",
+        "On every multi-engine base tree reachable within the base depth, every operation of the menu (incl. joins to a SQL partner) is issued with preferred_engine in {s,e1} and all five backtrack/transfer/require combinations; exceptions, columns, per-engine operation counts and the Processor-evaluated rows (vs the reference and vs the same call with no preferred engine) are judged on every call.",
+        "Trusted: reference evaluator, RealProcessor; 'result lives in the preferred engine' read together with 'transfer only if backtracking fails' (DESIGN 3 C03).",
+        "DESIGN.md 3 C03",
+    ),
 }
 
 NOT_YET = "check not built yet in this revision (planned, see DESIGN.md section 3)"
